@@ -45,54 +45,77 @@ def body_of(text, signature, what):
     raise ExtractError("%s: unbalanced braces" % what)
 
 def extract():
-    f = {}
-    cp = src("app/cmdline/src/command_parser.cpp")
-    body = body_of(cp, "get_command_from_string", "verb chain")
-    chain = re.findall(r'if\s*\(\s*boost::iequals\s*\(\s*\w+\s*,\s*"([^"]*)"\s*\)\s*\)\s*\{\s*return\s+command::(\w+)\s*;\s*\}', body)
-    n_if = len(re.findall(r"\bif\s*\(", body)); n_ret = len(re.findall(r"\breturn\s+command::", body))
-    if not chain or len(chain) != n_if or len(chain) != n_ret:
-        raise ExtractError("verb chain: %d recognised comparisons, %d if statements, %d returns of a command" % (len(chain), n_if, n_ret))
-    f["verbs"] = chain
-    rp = src("src/reply.cpp")
-    pos = one(r"code_\s*!=\s*unspecified\s*&&\s*code_\s*<\s*(\d+)\s*;", body_of(rp, "reply::is_positive", "is_positive"), "is_positive")
-    neg = one(r"code_\s*!=\s*unspecified\s*&&\s*code_\s*>=\s*(\d+)\s*;", body_of(rp, "reply::is_negative", "is_negative"), "is_negative")
-    inter = one(r"code_\s*!=\s*unspecified\s*&&\s*code_\s*>=\s*(\d+)\s*&&\s*code_\s*<\s*(\d+)\s*;", body_of(rp, "reply::is_intermediate", "is_intermediate"), "is_intermediate")
-    f["positiveBelow"] = int(pos); f["negativeFrom"] = int(neg); f["intermediateFrom"] = int(inter[0]); f["intermediateBelow"] = int(inter[1])
-    cc = src("src/control_connection.cpp")
-    f["ctlMaxLine"] = int(one(r"read_line\s*\(\s*buffer_\s*,\s*(\d+)\s*,", cc, "control line limit"))
-    dc = src("src/data_connection.cpp")
-    f["sendBlock"] = int(one(r"std::array\s*<\s*char\s*,\s*(\d+)\s*>", body_of(dc, "data_connection::send(", "data_connection::send"), "send block"))
-    f["recvBlock"] = int(one(r"std::array\s*<\s*char\s*,\s*(\d+)\s*>", body_of(dc, "data_connection::recv(", "data_connection::recv"), "recv block"))
-    f["asciiInBuf"] = int(one(r"ascii_istream\s*\([^)]*buf_size\s*=\s*(\d+)\s*\)", src("include/ftp/detail/ascii_istream.hpp"), "ascii_istream buffer"))
-    f["asciiOutHint"] = int(one(r"ascii_ostream\s*\([^)]*hint_size\s*=\s*(\d+)\s*\)", src("include/ftp/detail/ascii_ostream.hpp"), "ascii_ostream hint"))
-    return f
+    """returns (facts, errors): every fact is extracted on its own; a fact whose pattern no longer matches is left out of the
+    generated file (only the theorems that mention it then fail to build) and reported in `errors`"""
+    f = {}; errors = {}
+    def fact(names, fn):
+        try:
+            vals = fn()
+            for n, v in zip(names, vals if isinstance(vals, tuple) else (vals,)):
+                f[n] = v
+        except (ExtractError, OSError, ValueError) as e:
+            for n in names:
+                errors[n] = str(e)
+    def verbs():
+        cp = src("app/cmdline/src/command_parser.cpp")
+        body = body_of(cp, "get_command_from_string", "verb chain")
+        chain = re.findall(r'if\s*\(\s*boost::iequals\s*\(\s*\w+\s*,\s*"([^"]*)"\s*\)\s*\)\s*\{\s*return\s+command::(\w+)\s*;\s*\}', body)
+        n_if = len(re.findall(r"\bif\s*\(", body)); n_ret = len(re.findall(r"\breturn\s+command::", body))
+        if not chain or len(chain) != n_if or len(chain) != n_ret:
+            raise ExtractError("verb chain: %d recognised comparisons, %d if statements, %d returns of a command" % (len(chain), n_if, n_ret))
+        return (chain,)
+    fact(["verbs"], verbs)
+    def thresholds():
+        rp = src("src/reply.cpp")
+        pos = one(r"code_\s*!=\s*unspecified\s*&&\s*code_\s*<\s*(\d+)\s*;", body_of(rp, "reply::is_positive", "is_positive"), "is_positive")
+        neg = one(r"code_\s*!=\s*unspecified\s*&&\s*code_\s*>=\s*(\d+)\s*;", body_of(rp, "reply::is_negative", "is_negative"), "is_negative")
+        inter = one(r"code_\s*!=\s*unspecified\s*&&\s*code_\s*>=\s*(\d+)\s*&&\s*code_\s*<\s*(\d+)\s*;", body_of(rp, "reply::is_intermediate", "is_intermediate"), "is_intermediate")
+        return (int(pos), int(neg), int(inter[0]), int(inter[1]))
+    fact(["positiveBelow", "negativeFrom", "intermediateFrom", "intermediateBelow"], thresholds)
+    fact(["ctlMaxLine"], lambda: int(one(r"read_line\s*\(\s*buffer_\s*,\s*(\d+)\s*,", src("src/control_connection.cpp"), "control line limit")))
+    fact(["sendBlock"], lambda: int(one(r"std::array\s*<\s*char\s*,\s*(\d+)\s*>", body_of(src("src/data_connection.cpp"), "data_connection::send(", "data_connection::send"), "send block")))
+    fact(["recvBlock"], lambda: int(one(r"std::array\s*<\s*char\s*,\s*(\d+)\s*>", body_of(src("src/data_connection.cpp"), "data_connection::recv(", "data_connection::recv"), "recv block")))
+    fact(["asciiInBuf"], lambda: int(one(r"ascii_istream\s*\([^)]*buf_size\s*=\s*(\d+)\s*\)", src("include/ftp/detail/ascii_istream.hpp"), "ascii_istream buffer")))
+    fact(["asciiOutHint"], lambda: int(one(r"ascii_ostream\s*\([^)]*hint_size\s*=\s*(\d+)\s*\)", src("include/ftp/detail/ascii_ostream.hpp"), "ascii_ostream hint")))
+    return f, errors
 
-def render(f):
+def render(f, errors):
     esc = lambda s: s.replace("\\", "\\\\").replace('"', '\\"')
-    verbs = ",\n   ".join('("%s", "%s")' % (esc(v), esc(n)) for v, n in f["verbs"])
     lines = ["/-", "  GENERATED by tools/gen_source_facts.py from the source tree on every run of a check - do not edit.",
-             "  Tables and constants as they are written in the C++ source now.", "-/", "namespace Ftp.Generated", "",
-             "/-- `get_command_from_string`: (string compared with `boost::iequals`, enumerator returned), in source order -/",
-             "def verbChain : List (String × String) :=\n  [" + verbs + "]", ""]
+             "  Tables and constants as they are written in the C++ source now.  A fact the translator could not read is absent.", "-/", "namespace Ftp.Generated", ""]
+    if "verbs" in f:
+        verbs = ",\n   ".join('("%s", "%s")' % (esc(v), esc(n)) for v, n in f["verbs"])
+        lines += ["/-- `get_command_from_string`: (string compared with `boost::iequals`, enumerator returned), in source order -/",
+                  "def verbChain : List (String × String) :=\n  [" + verbs + "]", ""]
     for k in ("positiveBelow", "negativeFrom", "intermediateFrom", "intermediateBelow", "ctlMaxLine", "sendBlock", "recvBlock", "asciiInBuf", "asciiOutHint"):
-        lines.append("def %s : Nat := %d" % (k, f[k]))
+        if k in f:
+            lines.append("def %s : Nat := %d" % (k, f[k]))
+    for k in sorted(errors):
+        lines.append("-- not extracted: %s (%s)" % (k, errors[k].replace("\n", " ")[:200]))
     lines += ["", "end Ftp.Generated", ""]
     return "\n".join(lines)
 
+# which property theorems depend on which fact (for the error text of the audit)
+USERS = {"verbs": ["C19"], "positiveBelow": ["C15"], "negativeFrom": ["C15"], "intermediateFrom": ["C15"], "intermediateBelow": ["C15"],
+         "ctlMaxLine": ["C01", "C08"], "sendBlock": ["C04", "C12"], "recvBlock": ["C03", "C12"], "asciiInBuf": ["C05"], "asciiOutHint": ["C05"]}
+
 def generate():
-    """returns (changed, facts); raises ExtractError"""
-    f = extract()
-    text = render(f)
+    """returns (changed, facts, errors)"""
+    f, errors = extract()
+    text = render(f, errors)
     os.makedirs(os.path.dirname(OUT), exist_ok=True)
     old = open(OUT).read() if os.path.exists(OUT) else None
     if old != text:
         tmp = OUT + ".%d" % os.getpid()
         open(tmp, "w").write(text); os.replace(tmp, OUT)
-    return old != text, f
+    return old != text, f, errors
+
+def problems_for(pid, errors):
+    return ["translator tools/gen_source_facts.py could not read `%s` from the source: %s" % (k, e) for k, e in sorted(errors.items()) if pid in USERS.get(k, [])]
 
 if __name__ == "__main__":
-    try:
-        ch, f = generate()
-        print("SourceFacts.lean %s: %d verbs, %s" % ("rewritten" if ch else "unchanged", len(f["verbs"]), {k: v for k, v in f.items() if k != "verbs"}))
-    except ExtractError as e:
-        print("extraction failed: %s" % e); sys.exit(1)
+    ch, f, errors = generate()
+    print("SourceFacts.lean %s: %d verbs, %s" % ("rewritten" if ch else "unchanged", len(f.get("verbs", [])), {k: v for k, v in f.items() if k != "verbs"}))
+    for k, e in errors.items():
+        print("not extracted: %s: %s" % (k, e))
+    sys.exit(1 if errors else 0)
